@@ -67,6 +67,11 @@ def optIntOfJ : J → Option (Option Int)
   | .int i => some (some i)
   | _ => none
 
+def colorOfJ : J → Option (Option (Option Str × Option Str))
+  | .null => some none
+  | .arr [a, b] => do pure (some ((← optStrOfJ a), (← optStrOfJ b)))
+  | _ => none
+
 def optsOfJ (j : J) : Option Opts := do
   let es ← (j.get? "enable_summary") >>= optBoolOfJ
   let esfs ← j.getBool? "enable_summary_for_str"
@@ -85,7 +90,15 @@ def optsOfJ (j : J) : Option Opts := do
     | none => none
   let inc ← (j.get? "include_keys") >>= optKeysOfJ
   let exc ← (j.get? "exclude_keys") >>= optKeysOfJ
-  pure { enableSummary := es, enableSummaryForStr := esfs, maxSummaryLenForStr := maxl,
+  let kc ← (j.get? "key_color") >>= colorOfJ
+  let sc ← (j.get? "summary_color") >>= colorOfJ
+  let hl ← (j.getArr? "highlight") >>= (·.mapM keysOfJ)
+  let ll ← (j.getArr? "lowlight") >>= (·.mapM keysOfJ)
+  let title ← (j.get? "title") >>= optStrOfJ
+  let css ← (j.get? "css_classes") >>= strsOfJ
+  pure { keyColor := kc, highlight := hl, lowlight := ll,
+         top := { title := title, cssClasses := css, summaryColor := sc },
+         enableSummary := es, enableSummaryForStr := esfs, maxSummaryLenForStr := maxl,
          enableSummaryTooltip := est, enableKeyTooltip := ekt, keyStyle := ks, collapseLevel := cl,
          uncollapse := unc, name := name, includeKeys := inc, excludeKeys := exc }
 
